@@ -269,10 +269,12 @@ fn gen_huge(r: &mut Rng) -> Case {
 /// every improving move would put a part one unit above the cap, 2^53 + 1, which `to_f64` rounds
 /// back to 2^53 (a / b: cap = the heaviest part; d: cap = (1 + 1.0) * half the total, the total
 /// 2^53 + 1 itself rounding to 2^53), and (c) the half total rounding UP (2^54 + 6 -> 2^54 + 8), so
-/// that the code's own cap 2^53 + 4 lets a part grow to 2^53 + 4.
+/// that the code's own cap 2^53 + 4 lets a part grow to 2^53 + 4 -- which is also the exact half
+/// total 2^53 + 3 rounded once, so no violation -- and (e) the witness of the known finding: three
+/// roundings put the code's cap two units above the once-rounded one, and a part ends above it.
 fn gen_huge_pinned(r: &mut Rng) -> Case {
     const P53: i64 = 1 << 53;
-    let (name, n, edges, ws, p0, mi): (&str, usize, Vec<(usize, usize, i64)>, Vec<i64>, Vec<usize>, Option<f64>) = match r.below(4) {
+    let (name, n, edges, ws, p0, mi): (&str, usize, Vec<(usize, usize, i64)>, Vec<i64>, Vec<usize>, Option<f64>) = match r.below(5) {
         0 => ("a", 3, vec![(1, 2, 1)], vec![P53 - 3, 3, P53 - 2], vec![0, 0, 1], None),
         1 => (
             "b",
@@ -283,7 +285,10 @@ fn gen_huge_pinned(r: &mut Rng) -> Case {
             None,
         ),
         2 => ("c", 3, vec![(1, 2, 1)], vec![P53 + 2, 1, P53 + 3], vec![0, 0, 1], Some(0.0)),
-        _ => ("d", 2, vec![(0, 1, 1)], vec![P53 - 2, 3], vec![0, 1], Some(1.0)),
+        3 => ("d", 2, vec![(0, 1, 1)], vec![P53 - 2, 3], vec![0, 1], Some(1.0)),
+        // known finding fm-cap-f64-rounding-total-ge-2p53 (Properties/C07.v,
+        // C07_cap_exact_refuted_above_2p53): the code's cap 2^53+6, the property's 2^53+4
+        _ => ("e", 3, vec![(1, 2, 1)], vec![P53 + 1, 2, P53 + 3], vec![0, 0, 1], Some(f64::EPSILON / 2.0)),
     };
     let mut adj: Adj = vec![Vec::new(); n];
     for (u, v, w) in edges {
@@ -307,48 +312,154 @@ fn gen_huge_pinned(r: &mut Rng) -> Case {
     }
 }
 
-/// The cap of the property in EXACT arithmetic, as a fraction (num, den): the heaviest input part,
-/// or (1 + max_imbalance) * total / 2 with max_imbalance the exact value of the f64.  `None` when
-/// the numbers do not fit in i128 (diagnostic only; the verdicts come from the Coq checker, whose
-/// cap is the code's own f64 formula).
-fn exact_cap(mi: Option<f64>, loads: [i128; 2]) -> Option<(i128, i128)> {
-    match mi {
-        None => Some((loads[0].max(loads[1]), 1)),
-        Some(x) => {
-            if !x.is_finite() {
-                return None;
-            }
-            let total = loads[0] + loads[1];
-            // x = m * 2^e exactly
-            let bits = x.to_bits();
-            let sign: i128 = if bits >> 63 == 1 { -1 } else { 1 };
-            let ex = ((bits >> 52) & 0x7ff) as i32;
-            let frac = (bits & ((1u64 << 52) - 1)) as i128;
-            let (mut m, mut e) = if ex == 0 { (frac, -1074) } else { (frac | (1i128 << 52), ex - 1075) };
-            if m == 0 {
-                return Some((total, 2));
-            }
-            while m % 2 == 0 {
-                m /= 2;
-                e += 1;
-            }
-            let m = sign * m;
-            if e >= 0 {
-                if e > 100 {
-                    return None;
-                }
-                let f = 1i128.checked_shl(e as u32)?.checked_mul(m)?.checked_add(1)?;
-                Some((total.checked_mul(f)?, 2))
+/// Minimal unsigned big integers (little-endian u64 limbs) for the exact value of
+/// (1 + max_imbalance) * total / 2, whose numerator has up to ~1150 bits.
+#[derive(Clone)]
+struct Big(Vec<u64>);
+impl Big {
+    fn from_u64(x: u64) -> Big {
+        Big(vec![x])
+    }
+    fn pow2(k: u32) -> Big {
+        let mut v = vec![0u64; (k / 64) as usize + 1];
+        v[(k / 64) as usize] = 1u64 << (k % 64);
+        Big(v)
+    }
+    fn trim(mut self) -> Big {
+        while self.0.len() > 1 && *self.0.last().unwrap() == 0 {
+            self.0.pop();
+        }
+        self
+    }
+    fn shl(&self, k: u32) -> Big {
+        self.mul(&Big::pow2(k))
+    }
+    fn add(&self, o: &Big) -> Big {
+        let n = self.0.len().max(o.0.len());
+        let mut v = Vec::with_capacity(n + 1);
+        let mut carry = 0u128;
+        for i in 0..n {
+            let t = *self.0.get(i).unwrap_or(&0) as u128 + *o.0.get(i).unwrap_or(&0) as u128 + carry;
+            v.push(t as u64);
+            carry = t >> 64;
+        }
+        v.push(carry as u64);
+        Big(v).trim()
+    }
+    /// self - o, for self >= o
+    fn sub(&self, o: &Big) -> Big {
+        let mut v = Vec::with_capacity(self.0.len());
+        let mut borrow = 0i128;
+        for i in 0..self.0.len() {
+            let mut t = self.0[i] as i128 - *o.0.get(i).unwrap_or(&0) as i128 - borrow;
+            if t < 0 {
+                t += 1i128 << 64;
+                borrow = 1;
             } else {
-                if -e > 120 {
-                    return None;
-                }
-                let d = 1i128 << (-e) as u32;
-                let f = d.checked_add(m)?; // (1 + x) = f / d
-                Some((total.checked_mul(f)?, d.checked_mul(2)?))
+                borrow = 0;
+            }
+            v.push(t as u64);
+        }
+        assert!(borrow == 0);
+        Big(v).trim()
+    }
+    fn mul(&self, o: &Big) -> Big {
+        let mut v = vec![0u64; self.0.len() + o.0.len() + 1];
+        for (i, a) in self.0.iter().enumerate() {
+            let mut carry = 0u128;
+            for (j, b) in o.0.iter().enumerate() {
+                let t = (*a as u128) * (*b as u128) + v[i + j] as u128 + carry;
+                v[i + j] = t as u64;
+                carry = t >> 64;
+            }
+            let mut k = i + o.0.len();
+            while carry != 0 {
+                let t = v[k] as u128 + carry;
+                v[k] = t as u64;
+                carry = t >> 64;
+                k += 1;
+            }
+        }
+        Big(v).trim()
+    }
+    fn is_zero(&self) -> bool {
+        self.0.iter().all(|x| *x == 0)
+    }
+    fn bits(&self) -> u32 {
+        let t = self.clone().trim();
+        if t.is_zero() {
+            0
+        } else {
+            (t.0.len() as u32 - 1) * 64 + (64 - t.0.last().unwrap().leading_zeros())
+        }
+    }
+    fn bit(&self, i: u32) -> bool {
+        self.0.get((i / 64) as usize).map_or(false, |w| (w >> (i % 64)) & 1 == 1)
+    }
+}
+
+/// `mag * 2^exp` rounded ONCE to the nearest binary64, ties to even (mag > 0; the result is a
+/// normal number below 2^64, else None).
+fn round_once(mag: &Big, exp: i64) -> Option<f64> {
+    let l = mag.bits();
+    if l == 0 {
+        return Some(0.0);
+    }
+    // 53 leading bits, round bit, sticky
+    let mut q: u64 = 0;
+    for i in 0..53 {
+        q <<= 1;
+        if l > i && mag.bit(l - 1 - i) {
+            q |= 1;
+        }
+    }
+    let mut e = l as i64 - 1 + exp; // exponent of the leading bit
+    if l > 53 {
+        let round = mag.bit(l - 54);
+        let sticky = (0..l - 54).any(|i| mag.bit(i));
+        if round && (sticky || q & 1 == 1) {
+            q += 1;
+            if q == 1u64 << 53 {
+                q >>= 1;
+                e += 1;
             }
         }
     }
+    if !(-1000..64).contains(&e) {
+        return None;
+    }
+    Some(f64::from_bits((((e + 1023) as u64) << 52) | (q & ((1u64 << 52) - 1))))
+}
+
+/// The cap of the PROPERTY TEXT (Model/Fm.v `cap_prop`) for `max_imbalance: Some(mi)`: the exact
+/// (1 + mi) * total / 2 rounded once to binary64, truncated to i64.  Only for mi > -1 and a
+/// total >= 0 (otherwise the cap is <= 0 and constrains nothing more than the input weights).
+fn cap_prop(mi: f64, total: i64) -> Option<i64> {
+    if !mi.is_finite() || mi <= -1.0 || total < 0 {
+        return None;
+    }
+    let bits = mi.to_bits();
+    let neg = bits >> 63 == 1;
+    let ex = ((bits >> 52) & 0x7ff) as i64;
+    let frac = bits & ((1u64 << 52) - 1);
+    // mi = (+-) m * 2^e
+    let (m, e) = if ex == 0 { (frac, -1074i64) } else { (frac | (1u64 << 52), ex - 1075) };
+    // (1 + mi) = f * 2^fe, f > 0
+    let (f, fe) = if m == 0 {
+        (Big::from_u64(1), 0)
+    } else if e >= 0 {
+        if e > 200 {
+            return None;
+        }
+        let t = Big::from_u64(m).shl(e as u32);
+        (if neg { return None } else { t.add(&Big::from_u64(1)) }, 0)
+    } else {
+        let one = Big::pow2((-e) as u32);
+        (if neg { one.sub(&Big::from_u64(m)) } else { one.add(&Big::from_u64(m)) }, e)
+    };
+    let mag = f.mul(&Big::from_u64(total as u64));
+    let y = round_once(&mag, fe - 1)?;
+    <i64 as coupe::num_traits::FromPrimitive>::from_f64(y)
 }
 
 fn gen_case(r: &mut Rng, tier: &str) -> Case {
@@ -518,10 +629,11 @@ fn main() {
     let mut total_moves = 0usize;
     let mut total_passes = 0usize;
     let mut rewound = 0usize;
-    // diagnostic: outputs in which a part weighs more than max(its input weight, the cap in EXACT
-    // arithmetic) -- the code's cap is the f64 formula, which may round above the exact value
-    let mut exact_exceeded = 0usize;
-    let mut exact_exceeded_at: Vec<String> = Vec::new();
+    // inputs on which the code's cap (three f64 roundings) is above the property's (the exact value
+    // rounded once): tagged as the known-finding class when the total is >= 2^53, counted (and
+    // left untagged: a rejection there is a violation) below
+    let mut cap_above_ge_2p53 = 0usize;
+    let mut cap_above_lt_2p53 = 0usize;
     let mut huge_moved = 0usize;
     coupe::verif::trace_enable(true);
     for idx in 0..a.cases {
@@ -573,24 +685,6 @@ fn main() {
                     changed += 1;
                     if c.fam == "huge" {
                         huge_moved += 1;
-                    }
-                }
-                if !c.fam.starts_with("malformed_") && p.len() == c.ws.len() && c.p0.len() == c.ws.len() {
-                    let load = |part: &[usize], q: usize| -> i128 {
-                        part.iter().zip(&c.ws).filter(|(x, _)| **x == q).map(|(_, w)| *w as i128).sum()
-                    };
-                    let l0 = [load(&c.p0, 0), load(&c.p0, 1)];
-                    if let Some((num, den)) = exact_cap(c.mi, l0) {
-                        let over = (0..2).any(|q| {
-                            let l = load(p, q);
-                            l > l0[q] && l.checked_mul(den).map_or(false, |x| x > num)
-                        });
-                        if over {
-                            exact_exceeded += 1;
-                            if exact_exceeded_at.len() < 8 {
-                                exact_exceeded_at.push(format!("\"{}:{}\"", idx, c.fam));
-                            }
-                        }
                     }
                 }
                 rewound += rpp.iter().sum::<usize>();
@@ -662,16 +756,37 @@ fn main() {
             coq_nlist(mpp.iter().map(|x| *x as u128)),
             coq_nlist(rpp.iter().map(|x| *x as u128)),
         );
-        // known-finding class (from the input alone): the cap `ideal + mi * ideal` is not an i64
-        // (NaN, infinite, beyond the range): `W::from_f64(..).unwrap()` panics
+        // known-finding classes (from the input alone):
+        //  - the cap `ideal + mi * ideal` is not an i64 (NaN, infinite, beyond the range):
+        //    `W::from_f64(..).unwrap()` panics;
+        //  - in-contract shape, total >= 2^53, and the code's cap (total.to_f64() / 2, the product and
+        //    the sum each rounded) is above the cap of the property text (the exact
+        //    (1 + mi) * total / 2 rounded once, `cap_prop`): a part may end above the latter.
         let kf = match c.mi {
-            Some(mi) if c.ws.len() == c.p0.len() && c.p0.len() == n && n > 0 && c.p0.iter().all(|x| *x <= 1) => {
+            Some(mi)
+                if c.ws.len() == c.p0.len()
+                    && c.p0.len() == n
+                    && n > 0
+                    && c.p0.iter().all(|x| *x <= 1)
+                    && c.ws.iter().all(|w| *w >= 0)
+                    && c.ws.iter().map(|w| *w as i128).sum::<i128>() <= i64::MAX as i128 =>
+            {
                 let total: i64 = c.ws.iter().sum();
                 let ideal = total as f64 / 2.0;
-                if <i64 as coupe::num_traits::FromPrimitive>::from_f64(ideal + mi * ideal).is_none() {
-                    "\"kf\":\"fm-cap-not-representable\","
-                } else {
-                    ""
+                match <i64 as coupe::num_traits::FromPrimitive>::from_f64(ideal + mi * ideal) {
+                    None => "\"kf\":\"fm-cap-not-representable\",",
+                    Some(code_cap) => match cap_prop(mi, total) {
+                        Some(cp) if code_cap > cp => {
+                            if total >= 1i64 << 53 {
+                                cap_above_ge_2p53 += 1;
+                                "\"kf\":\"fm-cap-f64-rounding-total-ge-2p53\","
+                            } else {
+                                cap_above_lt_2p53 += 1;
+                                ""
+                            }
+                        }
+                        _ => "",
+                    },
                 }
             }
             _ => "",
@@ -714,7 +829,7 @@ fn main() {
         }
     }
     w.finish(&format!(
-        "\"hangs\":{},\"panics\":{},\"partition_changed\":{},\"passes\":{},\"moves\":{},\"rewound_moves\":{},\"huge_partition_changed\":{},\"exact_cap_exceeded\":{},\"exact_cap_exceeded_at\":[{}]",
-        hangs, panics, changed, total_passes, total_moves, rewound, huge_moved, exact_exceeded, exact_exceeded_at.join(",")
+        "\"hangs\":{},\"panics\":{},\"partition_changed\":{},\"passes\":{},\"moves\":{},\"rewound_moves\":{},\"huge_partition_changed\":{},\"code_cap_above_prop_cap_total_ge_2p53\":{},\"code_cap_above_prop_cap_total_lt_2p53\":{}",
+        hangs, panics, changed, total_passes, total_moves, rewound, huge_moved, cap_above_ge_2p53, cap_above_lt_2p53
     ));
 }
